@@ -1,6 +1,7 @@
 /- Engine `control`: op lines → model observations. -/
 import KamalProxy.Driver.Proto
 import KamalProxy.Model.Request
+import KamalProxy.Std.Html
 namespace KamalProxy.Driver.Control
 open KamalProxy Proto
 
@@ -83,11 +84,11 @@ def snapKeys : String :=
 def showOutcome (r : Req) : Outcome → String
   | .notFound => "404"
   | .redirect loc => s!"301 loc={encB loc}"
-  | .tlsReject => "503 msg=x"
+  | .tlsReject => "503 raw=x"
   | .healthOk => "200health"
-  | .stopped msg => s!"503 msg={encB msg}"
+  | .stopped msg => s!"503 raw={encB (escapeHTML msg)}"
   | .held fa => s!"held failafter={fa}"
-  | .noTargets => "503 msg=x"
+  | .noTargets => "503 raw=x"
   | .forwarded _ t _ strip => s!"fwd target={encB t} seen={encB (seenURI r strip)}"
 
 def stepLine (s : State) (line : String) : State × String :=
